@@ -44,7 +44,9 @@ Qed.
 (* ---------- the rows collected by flush ---------- *)
 Definition RI (p : phase) : Prop :=
   match p with
-  | Rendering _ ht rows n pc _ => n = Z.of_nat (length rows) /\ 0 <= pc <= n /\ all_row rows = true /\ n <= Z.max 0 ht
+  | Rendering _ ht rows n pc _ =>
+      (* the rows that will be redrawn (all but the popped-out ones) fit the height *)
+      n = Z.of_nat (length rows) /\ 0 <= pc <= n /\ all_row rows = true /\ n - pc <= Z.max 0 ht
   | _ => True
   end.
 
@@ -75,17 +77,31 @@ Proof.
     destruct err.
     { inversion H; subst. destruct (_ && _ && _); simp_state; [exact Logic.I|exact I]. }
     destruct (negb _); [discriminate H|].
-    destruct (take_rows _ _ _) as [taken used] eqn:T.
-    destruct (take_rows_sub _ _ _ _ _ T) as (Sub & U & _).
-    pose proof (take_rows_le _ _ _ _ _ T) as Le.
+    destruct (flush_take _ _ _ _) as [taken used] eqn:T.
+    destruct (flush_take_sub _ _ _ _ _ _ T) as (Sub & U & Po & _).
     destruct I as (In_ & Ipc & Irow & Iht).
+    assert (Le : (shutdown =? 2) && pop_mode s && negb nopop = false -> n + used - pc <= Z.max 0 ht).
+    { intros E. rewrite E in T. unfold flush_take in T. pose proof (take_rows_le _ _ _ _ _ T) as Le.
+      destruct (Z.le_gt_cases n (Z.max 0 ht)); [specialize (Le H0); lia|].
+      (* already above the height (popped-out rows below): nothing more is taken *)
+      assert (used = 0); [|lia]. clear - T H0. revert T. generalize (rev (bar_rows b r fi)). intros l. revert taken used.
+      induction l as [|x l IH]; intros taken used; cbn [take_rows]; [intros E; inversion E; reflexivity|].
+      destruct (Z.ltb_spec n ht); [lia|]. apply IH. }
     assert (R : all_row (rows ++ taken) = true).
     { rewrite all_row_app, Irow. cbn. eapply all_row_sub; [exact Sub|]. rewrite all_row_rev. apply bar_rows_all_row. }
     assert (N : n + used = Z.of_nat (length (rows ++ taken))) by (rewrite app_length; lia).
-    assert (U0 : 0 <= used) by lia. specialize (Le Iht).
-    repeat match type of H with
-    | context [match ?x with _ => _ end] => destruct x eqn:?
-    end; try discriminate; inversion H; subst; clear H; simp_state; cbn [RI]; repeat split; try assumption; try lia.
+    assert (U0 : 0 <= used) by lia.
+    destruct ((shutdown =? 2) && pop_mode s && negb nopop) eqn:PO.
+    + (* popped out: the rows are counted as popped, the part to redraw does not grow *)
+      apply andb_prop in PO as [PO1 PO3]. apply andb_prop in PO1 as [PO1 PO2].
+      apply Z.eqb_eq in PO1. subst shutdown. cbn [Z.eqb Pos.eqb] in H. simp_state. rewrite PO2, PO3 in H. cbn [andb] in H.
+      inversion H; subst; clear H; simp_state; cbn [RI]; repeat split; try assumption; try lia.
+    + specialize (Le eq_refl).
+      repeat match type of H with
+      | context [match ?x with _ => _ end] => destruct x eqn:?
+      end; try discriminate; inversion H; subst; clear H; simp_state; cbn [RI]; repeat split; try assumption; try lia.
+      all: exfalso; repeat match goal with Hq : (_ =? _) = true |- _ => apply Z.eqb_eq in Hq end; subst; simp_state;
+        match goal with Hq : _ && _ = true |- _ => rewrite Hq in PO end; cbn in PO; discriminate.
 Qed.
 
 (* ---------- the output ---------- *)
@@ -270,11 +286,13 @@ Proof.
     + rewrite Z.max_l by lia. reflexivity.
 Qed.
 
-(* a frame never holds more rows than the terminal is high *)
+(* the part of a frame that is redrawn — every row but those of bars popped out in this cycle, which stay for good — never holds
+   more rows than the terminal is high *)
 Theorem frame_fits_rows p a d evs s wd ht rows n pc pu :
-  run (init_cst p a d) evs = Some s -> ph s = Rendering wd ht rows n pc pu -> Z.of_nat (length rows) <= Z.max 0 ht.
+  run (init_cst p a d) evs = Some s -> ph s = Rendering wd ht rows n pc pu ->
+  n = Z.of_nat (length rows) /\ 0 <= pc <= n /\ n - pc <= Z.max 0 ht.
 Proof.
-  intros R P. pose proof (oi_ri _ (reachable_OInv _ _ _ _ _ R)) as I. rewrite P in I. cbn in I. lia.
+  intros R P. pose proof (oi_ri _ (reachable_OInv _ _ _ _ _ R)) as I. rewrite P in I. cbn in I. repeat split; lia.
 Qed.
 
 (* nothing is written while the render delay is pending *)
